@@ -423,6 +423,7 @@ func (h *Host) register() {
 		})
 		must(h.dr.ConvertAndAddFunction("pv", func() { h.call("fn", "pv") }))
 		must(h.dr.ConvertAndAddFunction("enter", func(n string) { h.call("fn", "enter", n) }))
+		must(h.dr.ConvertAndAddFunction("via", func(from, to string) string { h.call("fn", "via", from, to); return to }))
 		must(h.dr.ConvertAndAddFunction("pw", func(name string, x float64) {
 			h.call("fn", "pw", name, x)
 			if h.st != nil {
